@@ -624,10 +624,12 @@ func transitionLineBreakState(state int, r rune, b []byte, str string) (newState
 				return lbIDEM, LineDontBreak
 			}
 		}
-		graphemeProperty := propertyGraphemes(r)
-		if graphemeProperty == prExtendedPictographic && generalCategory == gcCn {
-			return lbExtPicCn, LineCanBreak
-		}
+	}
+
+	// Transition into LB30b. This must not depend on the rule that determined
+	// the line break before this code point.
+	if newState == lbIDEM && generalCategory == gcCn && propertyGraphemes(r) == prExtendedPictographic {
+		newState = lbExtPicCn
 	}
 
 	return
